@@ -113,7 +113,7 @@ impl<'a> CommentStyle<'a> {
 
 pub(crate) fn comment_style(orig: &str, normalize_comments: bool) -> CommentStyle<'_> {
     if !normalize_comments {
-        if orig.starts_with("/**") && !orig.starts_with("/**/") {
+        if orig.starts_with("/**") && !orig.starts_with("/**/") && !orig.starts_with("/***") {
             CommentStyle::DoubleBullet
         } else if orig.starts_with("/*!") {
             CommentStyle::Exclamation
